@@ -75,7 +75,11 @@ def _check_syntactic(m, run, funcs, summ, contracts):
     ex_ok = all(o.ok for o in run.obs[n2:])
     with run.corroborating(ex_ok, 'EX2', rules=('AX4.axis-map-single-valued', 'LY1.index-matches-layout')):
         ld.extract_curves_rules(m, run, summ)
-    grid_view(m, run, summ)
+    n3 = len(run.obs)
+    _sd.kd5(m, run)
+    gv_ok = all(o.ok for o in run.obs[n3:])
+    with run.corroborating(gv_ok, 'KD5/GV2', rules=('LY2.grid-view', 'LY1.canonical-stride', 'LY3.list-matches-declared-sizes')):
+        grid_view(m, run, summ)
     from . import c09
     c09.no_escape(m, run)     # the 2-D grid view holds the very point lists of the flat array (never the caller's): edits through one view reach the other
     transpose_rule(m, run, summ)
